@@ -421,7 +421,30 @@ func (e *Engine) matchDef(d *Def, posOf func(logIdx int) Pos, prefix string) {
 			got[k], gerr[k], pan[k] = ok, err != nil, p
 		}
 		runtime.ReadMemStats(&m1)
+		// Allocation: the whole batch is measured; if it allocated more than 32 KiB
+		// the calls are re-measured one by one - first those whose log holds a
+		// large head/length value (only an ordering hint: if what the batch
+		// allocated beyond them is small, every other call is within the bound).
 		suspicious := m1.TotalAlloc-m0.TotalAlloc > 32<<10
+		var single [batch]uint64
+		var haveSingle [batch]bool
+		if suspicious {
+			rest := m1.TotalAlloc - m0.TotalAlloc
+			for pass := 0; pass < 2 && rest > 32<<10; pass++ {
+				for i := start; i < end; i++ {
+					k := i - start
+					if skipped[k] || haveSingle[k] || (pass == 0 && !ls.Logs[i].HasLarge) {
+						continue
+					}
+					e.progress(posOf(i))
+					single[k] = measured(func() { _, _, _ = callMatch(rd, lgs[i]) })
+					haveSingle[k] = true
+					if pass == 0 {
+						rest -= min(rest, single[k])
+					}
+				}
+			}
+		}
 		for i := start; i < end; i++ {
 			k := i - start
 			l := ls.Logs[i]
@@ -503,11 +526,8 @@ func (e *Engine) matchDef(d *Def, posOf func(logIdx int) Pos, prefix string) {
 				bad = "differs"
 			case answer && fOK && !passes:
 				bad = "hidden"
-			case suspicious:
-				// the batch allocated more than expected: measure this case alone
-				e.progress(posOf(i))
-				a := measured(func() { _, _, _ = callMatch(rd, lgs[i]) })
-				if a > AllocBound(len(l.Data)) {
+			case haveSingle[k]:
+				if single[k] > AllocBound(len(l.Data)) {
 					slug := "well-formed-data"
 					if firstIll >= 0 {
 						slug = res[firstIll].Class.Slug()
